@@ -18,7 +18,7 @@ var decodeBase32Map [256]byte
 var ErrInvalidBase32 = errors.New("invalid base32")
 
 func init() {
-	for i := 0; i < len(encodeBase32Map); i++ {
+	for i := range decodeBase32Map {
 		decodeBase32Map[i] = 0xFF
 	}
 
